@@ -22,7 +22,7 @@ Waiting == (cutoff \/ sk = "stuck") /\ rem > 0
 
 MCInit == Init /\ w = 0
 MCNext == \/ \E dt \in 1..MaxAdv : Advance(dt) /\ w' = (IF rem > 0 /\ rem' = 0 THEN 0 ELSE w)
-          \/ (ServerUp \/ ServerDown \/ Reset \/ Refuse \/ UserReopen) /\ w' = 0
+          \/ (ServerUp \/ ServerDown \/ (\E kind \in ResetKinds : Reset(kind)) \/ Refuse \/ UserReopen) /\ w' = 0
           \/ \E r \in {"ok", "prog", "refused", "na"}, lazy \in BOOLEAN :
                  Service(r, lazy) /\ w' = (IF Due /\ ~Waiting /\ ~alive' /\ ~(r = "refused" /\ tries' = 1) THEN w + 1 ELSE 0)
 MCSpec == MCInit /\ [][MCNext]_mcvars
